@@ -11,6 +11,7 @@ import (
 	"time"
 
 	"github.com/miekg/dns"
+	"github.com/semihalev/sdns/config"
 	"github.com/semihalev/sdns/internal/verif/l3"
 	"github.com/semihalev/sdns/internal/verif/vlib"
 	"github.com/semihalev/sdns/internal/wire"
@@ -350,4 +351,58 @@ func execShare(f []string) vlib.Res {
 		tags += fmt.Sprintf(",shared%d", len(ids)-upstream)
 	}
 	return vlib.Res{Impl: fmt.Sprintf("ids=%s alias=%s errs=%d", strings.Join(got, ","), vlib.B(alias), nerr), Oracle: or, Tags: tags}
+}
+
+// ---- pool: pooled BufferWriter / chain reuse across internal sub-queries ------------
+
+type subStub struct {
+	q middleware.Queryer
+}
+
+func (s *subStub) Name() string                    { return "c10sub" }
+func (s *subStub) SetQueryer(q middleware.Queryer) { s.q = q }
+func (s *subStub) ServeDNS(ctx context.Context, ch *middleware.Chain) {
+	req := ch.Request.Msg()
+	if req == nil || len(req.Question) == 0 || strings.HasPrefix(req.Question[0].Name, "n") {
+		ch.Cancel()
+		return // writes nothing
+	}
+	m := new(dns.Msg)
+	m.SetReply(req)
+	m.Answer = []dns.RR{&dns.TXT{Hdr: dns.RR_Header{Name: req.Question[0].Name, Rrtype: dns.TypeTXT, Class: dns.ClassINET, Ttl: 5}, Txt: []string{req.Question[0].Name}}}
+	_ = ch.Writer.WriteMsg(m)
+	ch.Cancel()
+}
+
+func execPool(f []string) vlib.Res {
+	// pool subq <pattern of w/n>: sequential internal queries through the pooled BufferWriter + pooled chain
+	reg := middleware.NewRegistry()
+	st := &subStub{}
+	reg.Register("c10sub", func(*config.Config) middleware.Handler { return st })
+	p := reg.Build(&config.Config{})
+	middleware.VerifL3AutoWire(p)
+	var got []string
+	or := "ok"
+	for i, c := range f[2] {
+		name := fmt.Sprintf("%c%d.pool.c10.", c, i)
+		req := new(dns.Msg)
+		req.SetQuestion(name, dns.TypeTXT)
+		req.Id = uint16(100 + i)
+		resp, err := st.q.Query(context.Background(), req)
+		switch {
+		case err != nil || resp == nil:
+			got = append(got, "none")
+			if c == 'w' && or == "ok" {
+				or = fail("pool/subquery-reply-lost", "sub-query %d (%s) got no response: %v", i, name, err)
+			}
+		default:
+			got = append(got, fmt.Sprint(resp.Id))
+			if c == 'n' && or == "ok" {
+				or = fail("pool/leftover-response", "sub-query %d wrote nothing but its caller received a response for %v", i, resp.Question)
+			} else if (len(resp.Question) != 1 || resp.Question[0].Name != name || resp.Id != req.Id) && or == "ok" {
+				or = fail("pool/response-of-another-query", "sub-query %d (%s, id %d) received id %d %v", i, name, req.Id, resp.Id, resp.Question)
+			}
+		}
+	}
+	return vlib.Res{Impl: strings.Join(got, ","), Oracle: or, Tags: "nt"}
 }
